@@ -70,6 +70,14 @@ CHECKS = {
                 text="Machines draw a contract and options, optimize with a log, replay it untouched (must reproduce the file byte for byte) and replay single and double tamperings of the log from 13 operators; an accepted tampered log must yield blocks equivalent to the input blocks on concrete states.",
                 note="trusts vf/evm.py; logged runs use the deterministic greedy back-end; both runs use the same criterion and split policy as the README requires",
                 ref="DESIGN.md section 3 C11"),
+    "C06": dict(level="exploration", technique="bounded-exhaustive small-vocabulary specifications + Hypothesis-drawn encoder option sets; ALL models of the emitted hard constraints enumerated with z3 (blocking clauses) and each decoded model run by an independent sequence checker; SMT-LIB text validated by a declared-once check + z3's parser; sample decoded through the tool's own model reader",
+                text="For every instance the complete projected model set of the emitted hard constraints (or the first 1500 models) is enumerated and every model must decode to a sequence that realizes the specification within the declared bounds; the emitted text must load without sort/arity/declaration errors in both dialects.",
+                note="z3 stands in for OptiMathSAT/Barcelogic; exhaustive per instance unless the model cap is hit (reported); instances bounded by init_progr_len <= 8",
+                ref="DESIGN.md section 3 C06"),
+    "C07": dict(level="exploration", technique="same enumeration engine as C06 + brute-force enumeration of all realizing sequences (E5) + independent cost table: SAT-completeness, affine relation between soft objective and true cost over all models, equality of optima, invariance of the optimum across pruning/bounds option sets",
+                text="Per instance and criterion: if the brute-force enumerator finds a realizing sequence inside the bounds the hard constraints must be satisfiable; soft(M) - cost(decode(M)) must be constant over all models; the cheapest model must cost what the cheapest realizing sequence costs; the optimum must not depend on the optional pruning constraints.",
+                note="E5 exhaustive within its node budget (else inconclusive, counted); cost = independent static per-instruction figures",
+                ref="DESIGN.md section 3 C07"),
 }
 
 NOT_YET = {}
